@@ -265,7 +265,9 @@ func verifyFunctionOnce(l *Loaded, specs *Specs, ct *Contract, localAlias map[st
 			unsupported("contract of %s names %d parameters, the function has %d", ct.Name, len(ct.Params), len(fn.Params))
 		}
 		for i, p := range fn.Params {
-			w.bindName(ct.Params[i], p.Name())
+			if ct.Params[i] != "_" && p.Name() != "_" {
+				w.bindName(ct.Params[i], p.Name())
+			}
 		}
 	}
 	for k, v := range localAlias {
